@@ -1457,17 +1457,21 @@ def rx_13(ctx, rep):
     TOKP = 'parso/python/tokenize.py'
     PREFIXP = 'parso/python/prefix.py'
     pats = {}
+    from ..fold import Obj
     for version in ((3, 6), (3, 12)):
         env = ctx.token_collection(version)
-        for k, v in env.items():
-            if k.startswith('$') or k[:1].isupper():
-                continue
+        res = env.get('$result')
+        if not isinstance(res, Obj):
+            raise AnalysisError('RX-13: the token collection does not fold')
+        # by role: the fields of the TokenCollection the function returns (not its local variables)
+        fields = list(res.args) + list(res.kwargs.values())
+        for i, v in enumerate(fields):
             if isinstance(v, Rx):
-                pats.setdefault((TOKP, k), v)
+                pats.setdefault((TOKP, 'token collection field %d' % i), v)
             elif isinstance(v, dict):
-                for kk, vv in v.items():
+                for kk, vv in sorted(v.items(), key=lambda kv: str(kv[0])):
                     if isinstance(vv, Rx):
-                        pats.setdefault((TOKP, '%s[%r]' % (k, kk)), vv)
+                        pats.setdefault((TOKP, 'token collection field %d[%r]' % (i, kk)), vv)
     for rel in (TOKP, PREFIXP):
         folder = ctx.folder(rel)
         mod = ctx.prog.mod(rel)
